@@ -9,6 +9,7 @@ mod ordstream;
 mod tdstream;
 mod upstream;
 mod common;
+mod fficnf;
 mod ffistream;
 mod hashstream;
 mod ringstream;
@@ -55,9 +56,51 @@ fn main() {
     let from: u64 = arg(&args, "from", 0);
     let maxvars: usize = arg(&args, "maxvars", 6);
     let maxops: usize = arg(&args, "maxops", 30);
-    let out = std::io::stdout();
-    let mut out = std::io::BufWriter::new(out.lock());
+    // watchdog: the time a case takes is not part of any property (an uncompressed SDD program
+    // can take minutes in the implementation's structural comparisons); a case that exceeds the
+    // limit is reported as `=> timeout` and the rest of the shard continues in a child process
+    let limit_ms: u64 = std::env::var("HARNESS_CASE_TIMEOUT_MS").ok().and_then(|v| v.parse().ok()).unwrap_or(20_000);
+    let started = std::sync::Arc::new(std::sync::atomic::AtomicU64::new(0));
+    let current = std::sync::Arc::new(std::sync::atomic::AtomicU64::new(from));
+    {
+        let (started, current) = (started.clone(), current.clone());
+        let args = args.clone();
+        let end = from + cases;
+        let stream_name = stream.to_string();
+        std::thread::spawn(move || {
+            use std::sync::atomic::Ordering::SeqCst;
+            let t0 = std::time::Instant::now();
+            loop {
+                std::thread::sleep(std::time::Duration::from_millis(250));
+                let st = started.load(SeqCst);
+                if st != 0 && (t0.elapsed().as_millis() as u64).saturating_sub(st) > limit_ms {
+                    let idx = current.load(SeqCst);
+                    {
+                        let out = std::io::stdout();
+                        let mut out = out.lock();
+                        let _ = writeln!(out, "{} idx={} => timeout", stream_name, idx);
+                        let _ = out.flush();
+                    }
+                    let mut code = 0;
+                    if idx + 1 < end {
+                        let mut a: Vec<String> = args[1..]
+                            .iter()
+                            .filter(|x| !x.starts_with("--from=") && !x.starts_with("--cases="))
+                            .cloned()
+                            .collect();
+                        a.push(format!("--from={}", idx + 1));
+                        a.push(format!("--cases={}", end - idx - 1));
+                        code = std::process::Command::new(&args[0]).args(&a).status().ok().and_then(|s| s.code()).unwrap_or(1);
+                    }
+                    std::process::exit(code);
+                }
+            }
+        });
+    }
+    let clock = std::time::Instant::now();
     for idx in from..from + cases {
+        current.store(idx, std::sync::atomic::Ordering::SeqCst);
+        started.store(std::cmp::max(1, clock.elapsed().as_millis() as u64), std::sync::atomic::Ordering::SeqCst);
         let mut rng = Rng::for_case(seed, stream, idx);
         let lines: Vec<String> = match stream {
             "bdd" => {
@@ -80,7 +123,13 @@ fn main() {
             "comp" => vec![compstream::comp_line(&mut rng, maxvars)],
             "query" => vec![querystream::query_line(&mut rng, maxvars, maxops)],
             "ser" => serstream::ser_lines(&mut rng, idx, maxvars, maxops),
-            "ffi" => vec![ffistream::ffi_line(&mut rng, maxvars, maxops)],
+            "ffi" => {
+                if idx % 3 == 2 {
+                    vec![fficnf::ffi_cnf_line(&mut rng, maxvars)]
+                } else {
+                    vec![ffistream::ffi_line(&mut rng, maxvars, maxops)]
+                }
+            }
             "cli" => {
                 let bindir: String = arg(&args, "bindir", "/verif/.build/cli-target/debug".to_string());
                 let scratch: String = arg(&args, "scratch", "/verif/.build/cli-scratch".to_string());
@@ -97,8 +146,12 @@ fn main() {
                 std::process::exit(2);
             }
         };
+        started.store(0, std::sync::atomic::Ordering::SeqCst);
+        let out = std::io::stdout();
+        let mut out = out.lock();
         for l in lines {
             writeln!(out, "{}", l).unwrap();
         }
+        out.flush().unwrap();
     }
 }
